@@ -4,7 +4,7 @@
     deciding parts of the three generators; the check evaluates the same obligations in Coq on the
     identifiers read back from the generated files. Partial by nature (see DESIGN.md). *)
 From Coq Require Import List String Bool ZArith.
-From GM Require Import Base.Result Facts.GoFacts Facts.Ana Model.Enums Model.Names Model.GoScope Model.GoUnionsGen Proofs.C01 Proofs.C01g.
+From GM Require Import Base.Result Facts.GoFacts Facts.Ana Model.Enums Model.Names Model.GoScope Model.GoUnionsGen Model.RandGen Proofs.C01 Proofs.C01g Proofs.C01r.
 Import ListNotations.
 Local Open Scope string_scope.
 
@@ -27,7 +27,7 @@ Proof. exact receiver_ok_local. Qed.
     the structs whose routines are written belong to the analysed package (its failure is an open finding). *)
 Theorem C01_gounions_output_is_closed : forall pr nodes,
   structs_with_unions_local pr nodes = true ->
-  forall src ds, gounions pr nodes true src = Ok ds -> closed ds = true.
+  forall src ds, gounions pr nodes true src = Ok ds -> GoUnionsGen.closed ds = true.
 Proof. exact gounions_closed. Qed.
 
 (** methods are written on the wrapper types of the output or on defined types of the analysed package *)
@@ -49,10 +49,25 @@ Proof. exact wrapper_names_nodup. Qed.
     on the same program, declares it (non-vacuity of the closure theorem: its premise holds here) *)
 Theorem C01_ignored_union_field_refuted :
   structs_with_unions_local ex_prog ex_nodes = true
-  /\ (exists ds, gounions ex_prog ex_nodes false [GNamed "m.T"] = Ok ds /\ closed ds = false)
-  /\ (exists ds, gounions ex_prog ex_nodes true [GNamed "m.T"] = Ok ds /\ closed ds = true
+  /\ (exists ds, gounions ex_prog ex_nodes false [GNamed "m.T"] = Ok ds /\ GoUnionsGen.closed ds = false)
+  /\ (exists ds, gounions ex_prog ex_nodes true [GNamed "m.T"] = Ok ds /\ GoUnionsGen.closed ds = true
                  /\ map gd_id ds = ["Shape"; "T_json"] /\ declared_types ds = ["ShapeWrapper"]).
 Proof. exact ignored_union_field_refuted. Qed.
+
+(** randdata, for every analysed program, enum table and source list on which the traversal completes: every
+    function rand<X>() called by a generated function is declared by the output ("no undefined identifier"), recursive
+    types included (the cache holds a type before its function is written: the invariant of the proof speaks of the
+    types being visited). No premise. *)
+Theorem C01_randdata_output_is_closed : forall pr nodes enums fid_fuel src ds,
+  randdata pr nodes enums fid_fuel src = Ok ds -> RandGen.closed ds = true.
+Proof. exact randdata_closed. Qed.
+
+Theorem C01_randdata_recursive_example :
+  exists ds, randdata rx_prog rx_nodes [] 8 [GNamed "m.Tree"] = Ok ds
+    /\ map rd_id ds = ["SliceTree"; "string"; "Tree"]
+    /\ map rd_calls ds = [["Tree"]; []; ["SliceTree"; "string"]]
+    /\ RandGen.closed ds = true.
+Proof. exact recursive_struct_example. Qed.
 
 (** regression witness (pinned tree) and open finding (constant names of gounions are not injective) *)
 Theorem C01_pinned_enum_choices_refuted :
@@ -74,3 +89,5 @@ Print Assumptions C01_gounions_receivers_are_local.
 Print Assumptions C01_gounions_declares_wrappers_only.
 Print Assumptions C01_wrapper_names_are_distinct.
 Print Assumptions C01_ignored_union_field_refuted.
+Print Assumptions C01_randdata_output_is_closed.
+Print Assumptions C01_randdata_recursive_example.
